@@ -41,6 +41,9 @@ type c14Plan struct {
 	// EndAfterWrite (write failures): after the failed request the peer closes its side, and the client makes three
 	// blocking receives: each must fail within the read timeout, as after any other end of the transport.
 	EndAfterWrite bool `json:"end_after_write,omitempty"`
+	// PollMs > 0: the consumer polls (NextPackage with wait=false) every PollMs milliseconds instead of blocking:
+	// it too gets the prefix and then the error in time.
+	PollMs int `json:"poll_ms,omitempty"`
 }
 
 type c14 struct{}
@@ -127,6 +130,9 @@ func (c14) Gen(r *Rand, idx int, tier string) interface{} {
 		if i < n {
 			p := &c14Plan{Entries: rs.entries, Cuts: rs.cuts, K: i / len(c14Kinds), Kind: c14Kinds[i%len(c14Kinds)]}
 			p.ReadTimeoutS = []int{1, 2, 5}[idx%3]
+			if idx%13 == 7 {
+				p.PollMs = []int{1, 50, 300}[(idx/13)%3]
+			}
 			if idx%11 == 5 && !strings.HasPrefix(p.Kind, "transient") {
 				// legal: a connection that ended is reported at once (not combined with a transient zero-byte EOF,
 				// which a timeout of zero declares to be the end although the stream goes on)
@@ -221,7 +227,7 @@ func (c14) Run(plan interface{}, schedSeed uint64, replay []simrt.Choice, lenien
 		return c14RunTransient(p, v, cfg, base, pk, wire, drain)
 	}
 	got := runResp(cfg, respDelivery{Packets: pk, TermAt: p.K, TermKind: term, TermWithData: withData, Async: p.Async, TermDelay: time.Duration(p.FailDelayMs) * time.Millisecond},
-		respClient{QueueSize: c14Queue(p), ReadTimeoutS: p.ReadTimeoutS, DrainFor: drain, ReadSizes: c14ReadSizes(p.ReadSize, len(wire)), MaxErrs: 10})
+		respClient{QueueSize: c14Queue(p), ReadTimeoutS: p.ReadTimeoutS, DrainFor: drain, ReadSizes: c14ReadSizes(p.ReadSize, len(wire)), MaxErrs: 10, PollEvery: time.Duration(p.PollMs) * time.Millisecond})
 	out := got.Out
 	StdOutcome(v, base.Out)
 	StdOutcome(v, out)
@@ -340,7 +346,7 @@ func (c14) Run(plan interface{}, schedSeed uint64, replay []simrt.Choice, lenien
 			cfg2 := cfg
 			cfg2.Replay, cfg2.Lenient, cfg2.KeepLog = out.Tape, false, true
 			again := runResp(cfg2, respDelivery{Packets: pk, TermAt: p.K, TermKind: term, TermWithData: withData, Async: p.Async, TermDelay: time.Duration(p.FailDelayMs) * time.Millisecond},
-				respClient{QueueSize: c14Queue(p), ReadTimeoutS: p.ReadTimeoutS, DrainFor: drain, ReadSizes: c14ReadSizes(p.ReadSize, len(wire)), MaxErrs: 10})
+				respClient{QueueSize: c14Queue(p), ReadTimeoutS: p.ReadTimeoutS, DrainFor: drain, ReadSizes: c14ReadSizes(p.ReadSize, len(wire)), MaxErrs: 10, PollEvery: time.Duration(p.PollMs) * time.Millisecond})
 			pkgSends, errSend := 0, -1
 			for _, e := range again.Out.Log {
 				if e.Op != "send" && !(e.Op == "select" && strings.Contains(e.Info, "(send)")) {
@@ -416,7 +422,9 @@ func (c14) Run(plan interface{}, schedSeed uint64, replay []simrt.Choice, lenien
 		v.Violate("no-error", "no error after transport failure", "%s: the consumer never received an error", where)
 	case isCtx(firstErr):
 		v.Violate("no-error", "no error after transport failure: consumer blocked until its own deadline", "%s: the transport failed at t=%v but the consumer only returned when its own context expired at t=%v (read timeout %ds)", where, got.FailedAt, firstErr.Now, p.ReadTimeoutS)
-	case firstErr.Now > bound:
+	case firstErr.Now > bound && p.PollMs == 0:
+		// (a poll picks at random between "nothing ready" and a queued error, so a polling consumer may find the
+		// error a few polls late: for it only "an error before its own deadline" is judged)
 		v.Violate("late-error", "error later than the read timeout", "%s: failure at t=%v, first error at t=%v, bound %v", where, got.FailedAt, firstErr.Now, bound)
 	}
 	// 3. the failure is permanent: every later receive fails as well, in time - none blocks until its own deadline
@@ -435,6 +443,9 @@ func (c14) Run(plan interface{}, schedSeed uint64, replay []simrt.Choice, lenien
 			// each receive is called when the previous one returned: it must return within the bound as well
 			if seenFirst && i > 0 && r.Err != "" {
 				if gap := r.Now - got.Recs[i-1].Now; gap > time.Duration(p.ReadTimeoutS)*time.Second+2*cost {
+					if p.PollMs > 0 {
+						continue
+					}
 					v.Violate("later-receive-late", "a receive after the first error took longer than the read timeout", "%s: receive #%d after the failure was called at t=%v and returned at t=%v (read timeout %ds, poll cost %v)", where, i, got.Recs[i-1].Now, r.Now, p.ReadTimeoutS, cost)
 					break
 				}
